@@ -225,12 +225,14 @@ int main(int argc, char** argv)
 {
   int fresh = 0;
   long clock_at = 0;
+  unsigned op_timeout = 30;
   for (int i = 1; i < argc; ++i)
   {
     if (!strcmp(argv[i], "--fill") && i + 1 < argc) hw_fill = atoi(argv[++i]);
     else if (!strcmp(argv[i], "--redzone") && i + 1 < argc) hw_redzone = (size_t) atol(argv[++i]);
     else if (!strcmp(argv[i], "--clock-at") && i + 1 < argc) clock_at = atol(argv[++i]);
     else if (!strcmp(argv[i], "--fresh")) fresh = 1;
+    else if (!strcmp(argv[i], "--op-timeout") && i + 1 < argc) op_timeout = (unsigned) atoi(argv[++i]);
     else if (!strcmp(argv[i], "--trace")) hw_trace = 1;
     else { fprintf(stderr, "cmrh: unknown option %s\n", argv[i]); return 2; }
   }
@@ -243,6 +245,7 @@ int main(int argc, char** argv)
   signal(SIGBUS, on_signal);
 #endif
   signal(SIGFPE, on_signal);
+  signal(SIGALRM, on_signal);
   static char obuf[1 << 16];
   setvbuf(stdout, obuf, _IOFBF, sizeof(obuf));
 
@@ -301,7 +304,9 @@ int main(int argc, char** argv)
     hw_clock_fired = 0;
     hw_clock_inject_at = line_clock_at;
     h_time_limit = line_clock_at > 0 ? 3600.0 : 1.0e9;
+    alarm(op_timeout);
     CMR_ERROR e = d->fn(cmr, &t, &o);
+    alarm(0);
     hw_clock_inject_at = 0;
     size_t usage1 = CMRgetStackUsage(cmr);
     if (t.bad) { printf("bad-op malformed\n"); continue; }
